@@ -52,21 +52,24 @@ ID_RE = re.compile(r'[a-zA-Z_$0-9]*[a-zA-Z_$]+[a-zA-Z_$0-9]*')
 NUM_RE = re.compile(r'[0-9]+(\.[0-9]+)?')
 
 
-def _layout(mid_name, s, gap1, gap2, nl1, nl2):
-    """source text `select<gap1>LEXEME<gap2>x` with optional line breaks, and the token list the lexer yields for it"""
+def _layout(mid_name, s, gap1, gap2, nl1, nl2, pos=1):
+    """source text of three tokens `select`, LEXEME, `x` with the lexeme at position pos (0 first, 1 middle, 2 last), separated by
+    <gap1> / <gap2> with optional line breaks, and the token list the lexer yields for it"""
     sep1 = ('\n' if nl1 else '') + ' ' * gap1
     sep2 = ('\n' if nl2 else '') + ' ' * gap2
-    src = 'select' + sep1 + s + sep2 + 'x'
-    line = 1
-    t0 = tok('SELECT', 'select', line, 0)
-    line += 1 if nl1 else 0
-    i1 = 6 + len(sep1)
-    t1 = tok(mid_name, s, line, i1)
-    # (the real lexer does not advance lineno for line breaks INSIDE a token)
-    line += 1 if nl2 else 0
-    i2 = i1 + len(s) + len(sep2)
-    t2 = tok('ID', 'x', line, i2)
-    return src, [t0, t1, t2]
+    kinds = [('SELECT', 'select'), ('ID', 'x')]
+    kinds.insert(pos, (mid_name, s))
+    src, toks, line, idx = '', [], 1, 0
+    for k, (name, lexeme) in enumerate(kinds):
+        if k > 0:
+            sep = sep1 if k == 1 else sep2
+            src += sep
+            idx += len(sep)
+            line += 1 if (nl1 if k == 1 else nl2) else 0
+        toks.append(tok(name, lexeme, line, idx))      # (the real lexer does not advance lineno for line breaks INSIDE a token)
+        src += lexeme
+        idx += len(lexeme)
+    return src, toks
 
 
 def _norm(text):
@@ -80,11 +83,11 @@ def _ci(n, hi):
     return hi
 
 
-def _check(mid_name, s, gap1, gap2, nl1, nl2):
-    gap1, gap2, nl1, nl2 = _ci(gap1, 2), _ci(gap2, 2), (True if nl1 else False), (True if nl2 else False)
+def _check(mid_name, s, gap1, gap2, nl1, nl2, pos=1):
+    gap1, gap2, nl1, nl2, pos = _ci(gap1, 2), _ci(gap2, 2), (True if nl1 else False), (True if nl2 else False), _ci(pos, 2)
     _stub_on()
     try:
-        src, toks = _layout(mid_name, s, gap1, gap2, nl1, nl2)
+        src, toks = _layout(mid_name, s, gap1, gap2, nl1, nl2, pos)
     finally:
         _stub_off()
     out = tokens_to_string(toks)
@@ -92,67 +95,74 @@ def _check(mid_name, s, gap1, gap2, nl1, nl2):
     return out == src
 
 
-def quote_string(s: str) -> bool:
+def quote_string(s: str, pos: int) -> bool:
     """
+    pre: 0 <= pos <= 2
     pre: len(s) <= N
     pre: read_quoted_mindsdb(s, "'") is not None
     post: _
     """
-    return _check('QUOTE_STRING', s, 1, 1, False, False)
+    return _check('QUOTE_STRING', s, 1, 1, False, False, pos)
 
 
-def dquote_string(s: str) -> bool:
+def dquote_string(s: str, pos: int) -> bool:
     """
+    pre: 0 <= pos <= 2
     pre: len(s) <= N
     pre: read_quoted_mindsdb(s, '"') is not None
     post: _
     """
-    return _check('DQUOTE_STRING', s, 1, 1, False, False)
+    return _check('DQUOTE_STRING', s, 1, 1, False, False, pos)
 
 
-def variable(s: str) -> bool:
+def variable(s: str, pos: int) -> bool:
     """
+    pre: 0 <= pos <= 2
     pre: len(s) <= N + 1
     pre: VAR_RE.fullmatch(s) is not None and chr(10) not in s
     post: _
     """
-    return _check('VARIABLE', s, 1, 1, False, False)
+    return _check('VARIABLE', s, 1, 1, False, False, pos)
 
 
-def system_variable(s: str) -> bool:
+def system_variable(s: str, pos: int) -> bool:
     """
+    pre: 0 <= pos <= 2
     pre: len(s) <= N + 2
     pre: SVAR_RE.fullmatch(s) is not None and chr(10) not in s
     post: _
     """
-    return _check('SYSTEM_VARIABLE', s, 1, 1, False, False)
+    return _check('SYSTEM_VARIABLE', s, 1, 1, False, False, pos)
 
 
-def identifier(s: str) -> bool:
+def identifier(s: str, pos: int) -> bool:
     """
+    pre: 0 <= pos <= 2
     pre: len(s) <= N
     pre: ID_RE.fullmatch(s) is not None
     post: _
     """
-    return _check('ID', s, 1, 1, False, False)
+    return _check('ID', s, 1, 1, False, False, pos)
 
 
-def number(s: str) -> bool:
+def number(s: str, pos: int) -> bool:
     """
+    pre: 0 <= pos <= 2
     pre: len(s) <= N + 1
     pre: NUM_RE.fullmatch(s) is not None
     post: _
     """
-    return _check('FLOAT' if '.' in s else 'INTEGER', s, 1, 1, False, False)
+    return _check('FLOAT' if '.' in s else 'INTEGER', s, 1, 1, False, False, pos)
 
 
-def reach(s: str) -> bool:
+def reach(s: str, pos: int) -> bool:
     """
+    pre: 0 <= pos <= 2
     pre: len(s) <= N
     pre: read_quoted_mindsdb(s, "'") is not None and chr(10) not in s
     post: False
     """
-    return _check('QUOTE_STRING', s, 1, 1, False, False)
+    return _check('QUOTE_STRING', s, 1, 1, False, False, pos)
 
 
 # ---- layout: concrete lexemes of every kind, symbolic geometry, real lexer natively on each leaf --------------
@@ -162,7 +172,7 @@ LEXEMES = ["'it''s'", "''", "'a\\'b'", '"d\\"q"', '@x', "@'a b'", '@@y', '1.50',
 COMMENTS = ['', '/* c */', '-- c\n']
 
 
-def layout_leaf(k, gap1, gap2, nl1, nl2, c1, c2):
+def layout_leaf(k, gap1, gap2, nl1, nl2, c1, c2, pos=1):
     lex = LEXEMES[k]
     sep1 = ' ' * gap1 + COMMENTS[c1] + ('\n' if nl1 else '') + ' ' * gap2
     sep2 = ' ' * gap2 + COMMENTS[c2] + ('\n\n' if nl2 else '') + ' ' * gap1
@@ -170,7 +180,7 @@ def layout_leaf(k, gap1, gap2, nl1, nl2, c1, c2):
         sep1 = ' '
     if sep2 == '':
         sep2 = ' '
-    src = 'select' + sep1 + lex + sep2 + 'x, 2'
+    src = [lex + sep1 + 'x' + sep2 + ', 2', 'select' + sep1 + lex + sep2 + 'x, 2', 'select' + sep1 + 'x,' + sep2 + lex][pos]
     toks = list(MindsDBLexer().tokenize(src))
     out = tokens_to_string(toks)
     # every token's source text must occur verbatim, in order, in the stored text, separated only by whitespace
@@ -189,15 +199,35 @@ def layout_leaf(k, gap1, gap2, nl1, nl2, c1, c2):
     return [(t.type, str(t.value)) for t in toks2] == [(t.type, str(t.value)) for t in toks]
 
 
+def _layout_at(k, gap1, gap2, nl1, nl2, c1, c2, pos):
+    k, gap1, gap2, c1, c2 = _ci(k, 14), _ci(gap1, 2), _ci(gap2, 2), _ci(c1, 2), _ci(c2, 2)
+    nl1, nl2 = (True if nl1 else False), (True if nl2 else False)
+    with NoTracing():
+        return layout_leaf(k, gap1, gap2, nl1, nl2, c1, c2, pos)
+
+
 def layout(k: int, gap1: int, gap2: int, nl1: bool, nl2: bool, c1: int, c2: int) -> bool:
     """
     pre: 0 <= k < 15 and 0 <= gap1 <= 2 and 0 <= gap2 <= 2 and 0 <= c1 <= 2 and 0 <= c2 <= 2
     post: _
     """
-    k, gap1, gap2, c1, c2 = _ci(k, 14), _ci(gap1, 2), _ci(gap2, 2), _ci(c1, 2), _ci(c2, 2)
-    nl1, nl2 = (True if nl1 else False), (True if nl2 else False)
-    with NoTracing():
-        return layout_leaf(k, gap1, gap2, nl1, nl2, c1, c2)
+    return _layout_at(k, gap1, gap2, nl1, nl2, c1, c2, 1)
+
+
+def layout_first(k: int, gap1: int, gap2: int, nl1: bool, nl2: bool, c1: int, c2: int) -> bool:
+    """
+    pre: 0 <= k < 15 and 0 <= gap1 <= 2 and 0 <= gap2 <= 2 and 0 <= c1 <= 2 and 0 <= c2 <= 2
+    post: _
+    """
+    return _layout_at(k, gap1, gap2, nl1, nl2, c1, c2, 0)
+
+
+def layout_last(k: int, gap1: int, gap2: int, nl1: bool, nl2: bool, c1: int, c2: int) -> bool:
+    """
+    pre: 0 <= k < 15 and 0 <= gap1 <= 2 and 0 <= gap2 <= 2 and 0 <= c1 <= 2 and 0 <= c2 <= 2
+    post: _
+    """
+    return _layout_at(k, gap1, gap2, nl1, nl2, c1, c2, 2)
 
 
 def layout_reach(k: int, gap1: int, gap2: int, nl1: bool, nl2: bool, c1: int, c2: int) -> bool:
@@ -205,4 +235,4 @@ def layout_reach(k: int, gap1: int, gap2: int, nl1: bool, nl2: bool, c1: int, c2
     pre: 0 <= k < 15 and 0 <= gap1 <= 2 and 0 <= gap2 <= 2 and 0 <= c1 <= 2 and 0 <= c2 <= 2
     post: False
     """
-    return layout(k, gap1, gap2, nl1, nl2, c1, c2)
+    return _layout_at(k, gap1, gap2, nl1, nl2, c1, c2, 2)
